@@ -168,7 +168,16 @@ class Ctx:
             self.fail(op, "MUTATED", f"operand buffer {p} changed across the call" + ("" if out.ok else " (call raised)"),
                       path=_norm_path(p), who=("self" if which == "self" else "arg"), raised=not out.ok)
         if self.mutsan == "full" and out.ok and not share_ok:
-            if inplace and out.value is snap.named.get("self"):
+            recv = snap.named.get("self")
+            if inplace and recv is not None:
+                # a documented in-place operation may rebind the receiver's buffers, but never to memory of an argument
+                self.evals += 1
+                for rp, p, confirmed in snap.overlaps(recv, "self-after"):
+                    if p.startswith("self"):
+                        continue
+                    self.fail(op, "ALIAS", f"receiver buffer {rp} shares memory with argument {p} after the call; poke-confirmed={confirmed}",
+                              path=_norm_path(p), rpath=_norm_path(rp), confirmed=bool(confirmed))
+            if inplace and out.value is recv:
                 return
             self.evals += 1
             for rp, p, confirmed in snap.overlaps(out.value):
